@@ -55,10 +55,13 @@ structure Env where
 `ExternalProgramEditInPlace` runs a program on the file (`check=True`): `none` = non-zero exit status
 (`CalledProcessError`), `some (c, none)` = the file content afterwards, edited in place (mode kept),
 `some (c, some m)` = the program also left the mode `m` behind (it replaced the file by temp file + rename — a new
-inode with the temp file's mode — or ran `chmod`).  The program is assumed to depend on the content only. -/
+inode with the temp file's mode — or ran `chmod`).  The program is assumed to depend on the content only.
+`raises`: a post-processor that raises before it does anything. -/
 inductive FilePP
   | setMode (m : Nat)
   | edit (f : Content → Option (Content × Option Nat))
+  | raises     -- raises without touching the file: `SetFileMode` with an argument `os.chmod` rejects (`OverflowError`
+               -- outside the C `int` range, `TypeError` for a non-integer)
 
 inductive Err
   | conflict (p : Path)        -- PermissionError("… exists and allow_overwrite is False.")
@@ -151,6 +154,7 @@ def applyPPs (p : Path) : List FilePP → Nat → File → PPOut
     | some (c, nm) =>
       let r := applyPPs p rest (i + 1) ⟨c, editMode nm f.mode⟩
       ⟨r.file, .exec p i (nm.map permBits) :: r.ops, r.err⟩
+  | .raises :: _, i, f => ⟨f, [], some (.pp p i)⟩
 
 /-- Mode of the file once its content is written: `shutil.copy` copies the resource's mode, a plain
 `open`/`write` keeps the mode the opened file has. -/
@@ -214,6 +218,7 @@ def hasSetMode : List FilePP → Bool
   | [] => false
   | .setMode _ :: _ => true
   | .edit _ :: rest => hasSetMode rest
+  | .raises :: rest => hasSetMode rest
 
 /-- The requested file mode: the argument of `SetFileMode` when it is the *last* post-processor — where the CLI
 puts it (`post_processors.append(SetFileMode(self._args.file_mode))` after everything else), so that no
@@ -228,6 +233,7 @@ def ppContent : List FilePP → Content → Option Content
   | [], c => some c
   | .setMode _ :: rest, c => ppContent rest c
   | .edit g :: rest, c => (g c).bind (fun r => ppContent rest r.1)
+  | .raises :: _, _ => none
 
 /-- Nothing of the run can raise except the overwrite gate and `open`: every template renders and every
 external program succeeds on what it is given. -/
